@@ -232,6 +232,11 @@ impl<H: Hasher> BatchMerkleProof<H> {
                 i += 1;
             }
         }
+        // a proof carrying nodes which were not needed to compute the root is malformed
+        if self.nodes.iter().zip(proof_pointers.iter()).any(|(nodes, &ptr)| nodes.len() != ptr) {
+            return Err(MerkleTreeError::InvalidProof);
+        }
+
         v.remove(&1).ok_or(MerkleTreeError::InvalidProof)
     }
 
